@@ -661,26 +661,33 @@ def guarded(f):
         return ('err', type(e).__name__)
 
 
-def coq_eval2(ck, terms, chunk=300, timeout=900, jobs=16):
+def coq_eval2(ck, terms, chunk=1500, timeout=1500, jobs=16):
     """One Coq run per shard deciding both `check12_sound` and `check12_coded` (own variant of
     Check.coq_eval_mismatches, which decides one function per run).  Returns (bad_sound, bad_coded, err)."""
     import re
     from ..common import sh, COQ
     shards = []
-    # shards of at most `chunk` cases and about 120 kB of text (program cases are large, context cases small)
+    # few large shards: starting coqc and loading the libraries costs more than deciding the cases
     groups, cur, size = [], [], 0
     for i, t in enumerate(terms):
-        if cur and (len(cur) >= chunk or size + len(t) > 120000):
+        if cur and (len(cur) >= chunk or size + len(t) > 400000):
             groups.append(cur)
             cur, size = [], 0
         cur.append((i, t))
         size += len(t)
     if cur:
         groups.append(cur)
+    strlit = re.compile(r'"(?:[^"]|"")*"')
     for gi, part in enumerate(groups):
         name = f'cases_{gi:04d}'
-        body = ';\n'.join(f'({i}%nat, {c})' for i, c in part)
-        text = (HEADER + '\n'
+        # every distinct string literal is parsed once per shard (a string literal is a large term)
+        table = {}
+
+        def intern(m):
+            return table.setdefault(m.group(0), f'str{len(table)}')
+        body = ';\n'.join(f'({i}%nat, {strlit.sub(intern, c)})' for i, c in part)
+        defs = ''.join(f'Definition {v} : string := {lit}.\n' for lit, v in table.items())
+        text = (HEADER + '\n' + defs +
                 f'Definition cases : list (nat * case12) := [\n{body}\n].\n'
                 'Definition bad_sound := map fst (filter (fun ic => negb (check12_sound (snd ic))) cases).\n'
                 'Definition bad_coded := map fst (filter (fun ic => negb (check12_coded (snd ic))) cases).\n'
